@@ -237,6 +237,37 @@ func genC17() {
 	}
 	facts["c17_start_order"] = ord
 
+	// ---- syncer/output.go: RedisOutput.SetRunId (Model/BookSys.lean setRunId: early return, the ids passed,
+	// the in-memory field assigned only after a successful attempt, three attempts) and the checkpoint-key
+	// HSETs of the replay path (Model/BookSys.lean senderEntries)
+	fsetO, fo := parseFile("syncer/output.go")
+	setRunId := ""
+	var cpPuts []string
+	for _, d := range fo.Decls {
+		fd, ok := d.(*ast.FuncDecl)
+		if !ok || fd.Body == nil {
+			continue
+		}
+		switch fd.Name.Name {
+		case "SetRunId":
+			setRunId = c17StripCalls(c17Print(fsetO, fd.Body), "ro.logger.")
+		case "sendCmdsBatch":
+			ast.Inspect(fd.Body, func(n ast.Node) bool {
+				if ce, ok := n.(*ast.CallExpr); ok {
+					if t := c17Print(fsetO, ce); strings.HasPrefix(t, "batcher.Put(") && strings.Contains(t, "checkpointKv.") {
+						cpPuts = append(cpPuts, t)
+					}
+				}
+				return true
+			})
+		}
+	}
+	if setRunId == "" || len(cpPuts) == 0 {
+		die("syncer/output.go: SetRunId / the checkpoint writes of sendCmdsBatch not found")
+	}
+	facts["c17_setrunid"] = setRunId
+	facts["c17_sender_cp_writes"] = cpPuts
+
 	// ---- syncer/bisync.go: the recovery of a start runs synchronously inside bisyncStartPoint
 	// (Model/FrontierTraffic.lean: no unit commits while a recovery request is outstanding):
 	// no goroutine is started in these functions, and StartPoint calls bisyncStartPoint directly
@@ -309,7 +340,6 @@ func genC17() {
 		sort.Strings(sync[name])
 	}
 	facts["c14_start_sync"] = sync
-	fsetO, fo := parseFile("syncer/output.go")
 	var spCalls []string
 	for _, d := range fo.Decls {
 		fd, ok := d.(*ast.FuncDecl)
@@ -330,9 +360,12 @@ func genC17() {
 
 // c17StripLogs removes `sc.logger.X(...)` statements from a printed block
 // (they only report; the harness transliteration has none).
-func c17StripLogs(s string) string {
+func c17StripLogs(s string) string { return c17StripCalls(s, "sc.logger.") }
+
+// c17StripCalls removes the calls `<prefix>X(...)` from a printed block
+func c17StripCalls(s string, prefix string) string {
 	for {
-		i := strings.Index(s, "sc.logger.")
+		i := strings.Index(s, prefix)
 		if i < 0 {
 			return strings.Join(strings.Fields(s), " ")
 		}
